@@ -970,6 +970,18 @@ impl PeerSt {
                         };
                         if self.case.late && id == 1 {
                             self.deferred = Some(id);
+                            // meanwhile the delivery is only acknowledged as received (non-terminal, not settled): its
+                            // outcome is still to come - and must fail like any other when something stops
+                            let rcvd = Performative::Disposition(Disposition {
+                                role: Role::Receiver,
+                                first: id,
+                                last: None,
+                                settled: false,
+                                state: Some(DeliveryState::Received(fe2o3_amqp::types::messaging::Received { section_number: 0, section_offset: 0 })),
+                                batchable: false,
+                            });
+                            let b = frame_bytes(0, &rcvd, &[]);
+                            self.write_bytes("R1", &b).await;
                         } else {
                             self.accepted += 1;
                             self.emit(Ent::LinkS, &format!("P{}", id), disp(id), &[]).await;
@@ -1432,7 +1444,34 @@ fn is_data_op(name: &str) -> bool {
     name == "begin" || name.starts_with("attach") || name.starts_with("send#") || name.starts_with("out#") || name.starts_with("recv#") || name.starts_with("acc#")
 }
 
+/// The verdicts of [`direct_oracle_inner`], with the classes that depend on WHAT failed made specific to it: the level of
+/// an injected frame (`-link` for a detach, `-session` for an end, `-connection` for a close) or `-transport` for a cut.
 pub fn direct_oracle(line: &str, trace: &str) -> Vec<String> {
+    let level = if line.contains("inject=detach") {
+        "-link"
+    } else if line.contains("inject=end") {
+        "-session"
+    } else if line.contains("inject=close") {
+        "-connection"
+    } else {
+        "-transport"
+    };
+    direct_oracle_inner(line, trace)
+        .into_iter()
+        .map(|x| match x.split_once(':') {
+            Some((c, rest)) if c.starts_with("c14-peer-error-lost") || c.starts_with("c14-wrong-scope") || c.starts_with("c14-data-op-ok-after-failure") => {
+                format!("{}{}:{}", c, level, rest)
+            }
+            // a pending call: what stopped, and for a detach whether it was closing
+            Some((c, rest)) if c == "c14-hang" || c == "c14-hang-send-outcome" => {
+                format!("{}{}{}:{}", c, level, if level == "-link" && line.contains("dc=0") { "-nonclosing" } else { "" }, rest)
+            }
+            _ => x,
+        })
+        .collect()
+}
+
+fn direct_oracle_inner(line: &str, trace: &str) -> Vec<String> {
     let mut v = Vec::new();
     let Some(case) = parse_case(line) else {
         return vec![format!("c14-bad-case: {}", line)];
